@@ -188,8 +188,26 @@ class _NpProxy:
     @staticmethod
     def array(x, *a, **k):
         if isinstance(x, SymArray):
-            return x.copy()
+            dt = k.get("dtype", a[0] if a else None)
+            r = x.copy()
+            return r.astype(dt) if dt is not None else r
         return np.array(x, *a, **k)
+
+    @staticmethod
+    def asarray(x, *a, **k):
+        if isinstance(x, SymArray):
+            dt = k.get("dtype", a[0] if a else None)
+            return x.astype(dt) if dt is not None and np.dtype(dt) != x.dtype else x
+        return np.asarray(x, *a, **k)
+
+    asanyarray = asarray
+    ascontiguousarray = asarray
+
+    @staticmethod
+    def copy(x, *a, **k):
+        if isinstance(x, SymArray):
+            return x.copy()
+        return np.copy(x, *a, **k)
 
     @staticmethod
     def eye(*a, **k):
@@ -199,9 +217,14 @@ class _NpProxy:
 
 def install_np_proxies():
     import importlib
-    for mod in ("cola.linalg.eig.eigs", ):
-        m = importlib.import_module(mod)
-        m.np = _NpProxy()
+    import sys
+    importlib.import_module("cola.linalg.eig.eigs")
+    proxy = _NpProxy()
+    # every cola module that holds numpy as a global `np` (the backend module included): a direct np.array(x, copy=True) / np.asarray(x) on a
+    # payload must stay inside the symbolic domain like every other NumPy routine does through __array_function__
+    for name, m in list(sys.modules.items()):
+        if name.startswith("cola.") and getattr(m, "np", None) is np and "jax" not in name and "torch" not in name:
+            m.np = proxy
 
 
 def _flatten(x):
